@@ -148,9 +148,9 @@ Proof.
     unfold cut2 in Hc. destruct (zlen e <? zlen s) eqn:E; [discriminate|].
     rewrite (mapM_zlen _ _ _ Hc), zlen_zip. lia.
   - (* Regular *)
-    rewrite to_list_Regular in Hl. apply bind_Ok in Hl as (vs0 & H0 & Hl).
+    rewrite to_list_Regular in Hl. apply bind_Ok in Hl as (vs0 & Hc0l & Hl).
     apply rmap_Ok in Hl as (ls & Hc & ->). rewrite zlen_map. cbn [clen].
-    apply chunks_zlen in Hc as [_ Hc]. rewrite Hc, (IHc _ H0). reflexivity.
+    apply chunks_zlen in Hc as [_ Hc]. rewrite Hc, (IHc _ Hc0l). reflexivity.
   - rewrite to_list_Indexed in Hl. apply bind_Ok in Hl as (vs0 & _ & Hl).
     rewrite (mapM_zlen _ _ _ Hl). reflexivity.
   - rewrite to_list_IndexedOption in Hl. apply bind_Ok in Hl as (vs0 & _ & Hl).
@@ -167,7 +167,7 @@ Proof.
   - rewrite to_list_Record in Hl. apply bind_Ok in Hl as (vss & _ & Hl).
     destruct (n <? 0) eqn:E; [discriminate|].
     rewrite (mapM_zlen _ _ _ Hl), zlen_iota by lia. reflexivity.
-  - rewrite to_list_Par in Hl. apply bind_Ok in Hl as (vs0 & H0 & Hl). cbn [clen]. rewrite <- (IHc _ H0).
+  - rewrite to_list_Par in Hl. apply bind_Ok in Hl as (vs0 & Hc0l & Hl). cbn [clen]. rewrite <- (IHc _ Hc0l).
     destruct arr as [[]|]; try (inversion Hl; subst; reflexivity); apply (mapM_zlen _ _ _ Hl).
 Qed.
 
@@ -178,3 +178,282 @@ Example to_list_length_ex :
   let c := Par (Some AString) None (ListOffset I64 [0; 2; 2; 3] (Par (Some AChar) None (Numpy DUInt8 [3] [DZ 104; DZ 105; DZ 33]))) in
   validb None c = true /\ to_list c = Ok [VStr true [104; 105]; VStr true []; VStr true [33]] /\ clen c = 3.
 Proof. vm_compute. repeat split. Qed.
+
+(* ---------------------------------------------------------------- T2 *)
+(* T2 as first stated,
+     valid_to_list_total : forall c p, Valid p c -> exists vs, to_list c = Ok vs,
+   is FALSE of the model: like the C++ validityerror, [Valid]/[validb] do not look below a string /
+   bytestring node, so the character buffer may be too short or (in the model, where a datum is
+   untyped) hold NaN/inf; both layouts below are valid and have no value. *)
+Example valid_to_list_total_counterexample_short_buffer :
+  let c := Par (Some AString) None (ListOffset I64 [0] (Par (Some AChar) None (Numpy DUInt8 [5] []))) in
+  validb None c = true /\ to_list c = Err EValue.
+Proof. vm_compute. split; reflexivity. Qed.
+Example valid_to_list_total_counterexample_nan_char :
+  let c := Par (Some AString) None (ListOffset I64 [0; 1] (Par (Some AChar) None (Numpy DUInt8 [1] [DNaN]))) in
+  validb None c = true /\ to_list c = Err EValue.
+Proof. vm_compute. split; reflexivity. Qed.
+
+(* the missing side condition: character buffers (the leaves tagged char/byte) are sound *)
+Definition is_dz (d : datum) : bool := match d with DZ _ => true | _ => false end.
+Definition numpy_ok (c : content) : bool :=
+  match c with
+  | Numpy _ shape data =>
+      forallb (fun d => 0 <=? d) shape && (prodZ shape <=? zlen data) && forallb is_dz (take (prodZ shape) data)
+  | _ => false
+  end.
+Fixpoint chars_ok (c : content) : bool :=
+  match c with
+  | Numpy _ _ _ | Empty => true
+  | ListOffset _ _ c' | ListA _ _ _ c' | Regular c' _ _ | Indexed _ _ c' | IndexedOption _ _ c'
+  | ByteMasked _ _ c' | BitMasked _ _ _ _ c' | Unmasked c' => chars_ok c'
+  | Union _ _ _ cs | Record cs _ _ =>
+      (fix all (l : list content) : bool := match l with [] => true | x :: xs => chars_ok x && all xs end) cs
+  | Par a _ c' =>
+      match a with Some AChar | Some AByte => numpy_ok c' | _ => true end && chars_ok c'
+  end.
+Lemma chars_ok_all cs :
+  (fix all (l : list content) : bool := match l with [] => true | x :: xs => chars_ok x && all xs end) cs = true ->
+  Forall (fun x => chars_ok x = true) cs.
+Proof.
+  induction cs as [|x xs IH]; [constructor|]. intros H. apply andb_true_iff in H as [H1 H2]. constructor; auto.
+Qed.
+
+Lemma chunks_total {A} (vs : list A) size zl : 0 <= size -> 0 <= zl -> exists ch, chunks vs size zl = Ok ch.
+Proof.
+  intros H1 H2. unfold chunks. destruct (size <? 0) eqn:E; [lia|]. destruct (size =? 0); [|eauto].
+  destruct (zl <? 0) eqn:E2; [lia|eauto].
+Qed.
+Lemma nest_total : forall dims count vs,
+  Forall (fun d => 0 <= d) dims -> 0 <= count -> exists out, nest dims count vs = Ok out.
+Proof.
+  induction dims as [|d ds IH]; intros count vs Hd Hc; cbn [nest]; [eauto|].
+  inversion Hd; subst. destruct (IH (count * d) vs) as [inner ->]; [assumption|nia|]. cbn.
+  destruct (chunks_total inner d count) as [ch ->]; [assumption..|]. cbn. eauto.
+Qed.
+
+Lemma cut1_total {A} (vs : list A) ab : pair_ok (zlen vs) ab -> exists l, cut1 vs ab = Ok l.
+Proof.
+  destruct ab as [a b]. unfold pair_ok, cut1. cbn [fst snd]. intros H.
+  destruct (a =? b) eqn:E; [eauto|]. rewrite slice_ok by lia. eauto.
+Qed.
+Lemma cut_total {A} (vs : list A) o :
+  1 <= zlen o -> Forall (pair_ok (zlen vs)) (pairs o) -> exists ls, cut vs o = Ok ls.
+Proof.
+  intros H1 H2. unfold cut. destruct o; [cbn in H1; lia|]. apply mapM_total.
+  intros ab Hab. rewrite Forall_forall in H2. apply cut1_total, H2, Hab.
+Qed.
+Lemma cut2_total {A} (vs : list A) s e :
+  zlen s <= zlen e -> Forall (pair_ok (zlen vs)) (zip s e) -> exists ls, cut2 vs s e = Ok ls.
+Proof.
+  intros H1 H2. unfold cut2. destruct (zlen e <? zlen s) eqn:E; [lia|]. apply mapM_total.
+  intros ab Hab. rewrite Forall_forall in H2. apply cut1_total, H2, Hab.
+Qed.
+
+Lemma ParamOk_nonlist p c : ParamOk p c -> list_content c = None -> p = None.
+Proof.
+  destruct p as [[]|]; cbn; try contradiction; try reflexivity;
+    intros (c' & ? & ? & ? & H & _) Hn; congruence.
+Qed.
+Lemma ParamOk_str p c : ParamOk p c -> is_strk p = true ->
+  exists c' k rn n d, list_content c = Some c' /\ c' = Par (Some k) rn (Numpy DUInt8 [n] d) /\ (k = AChar \/ k = AByte).
+Proof.
+  destruct p as [[]|]; cbn; try discriminate; intros (c' & rn & n & d & H1 & H2) _;
+    exists c'; eexists; exists rn, n, d; split; [exact H1|split; [exact H2|auto]| exact H1 |split; [exact H2|auto]].
+Qed.
+Lemma ParamOk_nostr p c : ParamOk p c -> is_strk p = false -> p = None.
+Proof. destruct p as [[]|]; cbn; try contradiction; try discriminate; reflexivity. Qed.
+
+Definition has_bytes (v : value) : Prop := exists s, bytes_of v = Ok s.
+
+(* the value of a sound character buffer *)
+Lemma chars_to_list k rn n d :
+  (k = AChar \/ k = AByte) -> numpy_ok (Numpy DUInt8 [n] d) = true ->
+  exists zs, to_list (Par (Some k) rn (Numpy DUInt8 [n] d)) = Ok (map (fun z => VNum (DZ z)) zs) /\ zlen zs = n.
+Proof.
+  intros Hk Hok. cbn [numpy_ok] in Hok. apply andb_true_iff in Hok as [Hok Hdz]. apply andb_true_iff in Hok as [Hs Hd].
+  cbn [forallb] in Hs. rewrite andb_true_r in Hs. cbn [prodZ fold_right] in Hd, Hdz. rewrite Z.mul_1_r in Hd, Hdz.
+  rewrite to_list_Par, to_list_Numpy. cbn [existsb prodZ fold_right]. rewrite Z.mul_1_r.
+  destruct (n <? 0) eqn:E1; [lia|]. cbn [orb]. destruct (zlen d <? n) eqn:E2; [lia|]. cbn [nest bind].
+  assert (G : exists zs, map (leaf DUInt8) (take n d) = map (fun z => VNum (DZ z)) zs /\ zlen zs = zlen (take n d)).
+  { revert Hdz. generalize (take n d) as l. induction l as [|x l IH]; cbn [forallb]; intros H.
+    - exists []. split; reflexivity.
+    - apply andb_true_iff in H as [Hx Hl]. destruct (IH Hl) as (zs & E & Ez). destruct x as [z| |]; try discriminate.
+      exists (z :: zs). cbn [map leaf]. rewrite E, !zlen_cons, Ez. split; reflexivity. }
+  destruct G as (zs & E & Ez). exists zs. rewrite E. split.
+  - destruct Hk as [-> | ->]; reflexivity.
+  - rewrite Ez. apply zlen_take. lia.
+Qed.
+
+Lemma bytes_sub zs l : (forall x, In x l -> In x (map (fun z => VNum (DZ z)) zs)) -> has_bytes (VList l).
+Proof.
+  intros H. unfold has_bytes. cbn [bytes_of]. apply mapM_total. intros x Hx.
+  apply H, in_map_iff in Hx as (z & <- & _). eauto.
+Qed.
+
+Lemma get_clen_map cs tg lc : get (map clen cs) tg = Ok lc -> exists c, get cs tg = Ok c /\ lc = clen c.
+Proof. rewrite get_map. intros H. apply rmap_Ok in H as (c & ? & ?). eauto. Qed.
+
+Definition total_at (c : content) : Prop :=
+  forall p, Valid p c -> chars_ok c = true ->
+  exists vs, to_list c = Ok vs /\ (is_strk p = true -> Forall has_bytes vs).
+
+(* the three list nodes share the treatment of their content *)
+Lemma list_content_total p c cc :
+  total_at cc -> ParamOk p c -> list_content c = Some cc -> (is_strk p = false -> Valid None cc) -> chars_ok cc = true ->
+  exists vs0, to_list cc = Ok vs0 /\ (is_strk p = true -> exists zs, vs0 = map (fun z => VNum (DZ z)) zs).
+Proof.
+  intros IH Hp Hc Hv Hok. destruct (is_strk p) eqn:Es.
+  - destruct (ParamOk_str _ _ Hp Es) as (c' & k & rn & n & d & Hc' & -> & Hk). rewrite Hc in Hc'. inversion Hc'; subst.
+    cbn [chars_ok] in Hok. apply andb_true_iff in Hok as [Hok _].
+    assert (Hn : numpy_ok (Numpy DUInt8 [n] d) = true) by (destruct Hk as [-> | ->]; exact Hok).
+    destruct (chars_to_list k rn n d Hk Hn) as (zs & Hz & _). eauto.
+  - destruct (IH None (Hv eq_refl) Hok) as (vs0 & Hc0l & _). exists vs0. split; [exact Hc0l|discriminate].
+Qed.
+
+Lemma to_list_total_all c : total_at c.
+Proof.
+  induction c as [dt shape data| |w o c IHc|w s e c IHc|c size zl IHc|w ix c IHc|w ix c IHc|m vw c IHc
+                 |m vw lsb n c IHc|c IHc|w t ix cs IHcs|cs ks n IHcs|arr rn c IHc] using content_ind';
+    intros p HV Hok; inversion HV; subst;
+    try (match goal with Hp : ParamOk p _ |- _ => pose proof (ParamOk_nonlist _ _ Hp eq_refl); subst p end).
+  - (* Numpy *)
+    rewrite to_list_Numpy. destruct shape as [|n dims]; [congruence|].
+    match goal with H : Forall _ (n :: dims) |- _ => rename H into Hs end.
+    rewrite (Forall_nonneg_existsb _ Hs). destruct (zlen data <? prodZ (n :: dims)) eqn:E; [lia|].
+    inversion Hs; subst. destruct (nest_total dims n (map (leaf dt) (take (prodZ (n :: dims)) data))) as [out Ho]; [assumption..|].
+    exists out. split; [exact Ho|discriminate].
+  - exists []. split; [reflexivity|discriminate].
+  - (* ListOffset *)
+    match goal with Hp : ParamOk p _, Hs : _ -> Valid None c |- _ =>
+      destruct (list_content_total p _ c IHc Hp eq_refl Hs Hok) as (vs0 & Hc0l & Hz) end.
+    rewrite to_list_ListOffset, Hc0l. cbn [bind].
+    destruct (cut_total vs0 o) as [ls Hls]; [assumption|rewrite (to_list_len _ _ Hc0l); assumption|].
+    rewrite Hls. cbn [rmap]. eexists. split; [reflexivity|]. intros Es. destruct (Hz Es) as (zs & ->).
+    apply cut_sub in Hls. apply Forall_forall. intros v Hv. apply in_map_iff in Hv as (l & <- & Hl).
+    rewrite Forall_forall in Hls. eapply bytes_sub, Hls, Hl.
+  - (* ListA *)
+    match goal with Hp : ParamOk p _, Hs : _ -> Valid None c |- _ =>
+      destruct (list_content_total p _ c IHc Hp eq_refl Hs Hok) as (vs0 & Hc0l & Hz) end.
+    rewrite to_list_ListA, Hc0l. cbn [bind].
+    destruct (cut2_total vs0 s e) as [ls Hls]; [assumption|rewrite (to_list_len _ _ Hc0l); assumption|].
+    rewrite Hls. cbn [rmap]. eexists. split; [reflexivity|]. intros Es. destruct (Hz Es) as (zs & ->).
+    apply cut2_sub in Hls. apply Forall_forall. intros v Hv. apply in_map_iff in Hv as (l & <- & Hl).
+    rewrite Forall_forall in Hls. eapply bytes_sub, Hls, Hl.
+  - (* Regular *)
+    match goal with Hp : ParamOk p _, Hs : _ -> Valid None c |- _ =>
+      destruct (list_content_total p _ c IHc Hp eq_refl Hs Hok) as (vs0 & Hc0l & Hz) end.
+    rewrite to_list_Regular, Hc0l. cbn [bind].
+    destruct (chunks_total vs0 size zl) as [ls Hls]; [assumption..|].
+    rewrite Hls. cbn [rmap]. eexists. split; [reflexivity|]. intros Es. destruct (Hz Es) as (zs & ->).
+    apply chunks_spec in Hls. apply Forall_forall. intros v Hv. apply in_map_iff in Hv as (l & <- & Hl).
+    rewrite Forall_forall in Hls. eapply bytes_sub, Hls, Hl.
+  - (* Indexed *)
+    destruct (IHc None) as (vs0 & Hc0l & _); [assumption..|]. rewrite to_list_Indexed, Hc0l. cbn [bind].
+    destruct (gather_ok vs0 ix) as [xs Hx]; [rewrite (to_list_len _ _ Hc0l); assumption|].
+    exists xs. split; [exact Hx|discriminate].
+  - (* IndexedOption *)
+    destruct (IHc None) as (vs0 & Hc0l & _); [assumption..|]. rewrite to_list_IndexedOption, Hc0l. cbn [bind].
+    pose proof (to_list_len _ _ Hc0l) as Hlen.
+    match goal with H : Forall _ ix |- _ => rename H into Hix end. rewrite Forall_forall in Hix.
+    destruct (mapM_total (fun i => pick_opt vs0 (0 <=? i) i) ix) as [xs Hx].
+    { intros i Hi. unfold pick_opt. destruct (0 <=? i) eqn:E; [|eauto]. apply get_ok. specialize (Hix i Hi). lia. }
+    exists xs. split; [exact Hx|discriminate].
+  - (* ByteMasked *)
+    destruct (IHc None) as (vs0 & Hc0l & _); [assumption..|]. rewrite to_list_ByteMasked, Hc0l. cbn [bind].
+    pose proof (to_list_len _ _ Hc0l) as Hlen.
+    match goal with |- exists _, mapM ?f ?l = _ /\ _ => destruct (mapM_total f l) as [xs Hx] end.
+    { intros [i b] Hi. apply zip_In in Hi as [Hi _]. apply iota_In' in Hi.
+      unfold pick_opt. destruct (Bool.eqb _ _); [|eauto]. apply get_ok. lia. }
+    exists xs. split; [exact Hx|discriminate].
+  - (* BitMasked *)
+    destruct (IHc None) as (vs0 & Hc0l & _); [assumption..|]. rewrite to_list_BitMasked, Hc0l. cbn [bind].
+    pose proof (to_list_len _ _ Hc0l) as Hlen. destruct (n <? 0) eqn:E; [lia|].
+    match goal with |- exists _, mapM ?f ?l = _ /\ _ => destruct (mapM_total f l) as [xs Hx] end.
+    { intros i Hi. apply iota_In' in Hi. unfold bit_at.
+      destruct (get_ok m (i / 8)) as [byte ->].
+      { split; [apply Z.div_pos; lia|]. apply Z.div_lt_upper_bound; lia. }
+      cbn [bind]. unfold pick_opt. destruct (Bool.eqb _ _); [|eauto]. apply get_ok. lia. }
+    exists xs. split; [exact Hx|discriminate].
+  - (* Unmasked *)
+    destruct (IHc None) as (vs0 & Hc0l & _); [assumption..|]. rewrite to_list_Unmasked. exists vs0. split; [exact Hc0l|discriminate].
+  - (* Union *)
+    cbn [chars_ok] in Hok. apply chars_ok_all in Hok.
+    match goal with H : Forall (Valid None) cs |- _ => rename H into HVs end.
+    assert (Hall : exists vss, mapM to_list cs = Ok vss).
+    { apply mapM_total. intros x Hx. rewrite Forall_forall in IHcs, HVs, Hok.
+      destruct (IHcs x Hx None (HVs x Hx) (Hok x Hx)) as (v & ? & _). eauto. }
+    destruct Hall as [vss Hvss]. rewrite to_list_Union, all_lists_mapM, Hvss. cbn [bind].
+    destruct (zlen ix <? zlen t) eqn:E; [lia|].
+    match goal with |- exists _, mapM ?f ?l = _ /\ _ => destruct (mapM_total f l) as [xs Hx] end.
+    { intros [tg i] Hi.
+      match goal with H : Forall _ (zip t ix) |- _ => rewrite Forall_forall in H; destruct (H _ Hi) as (Ht & Hi0 & lc & Hlc & Hlt) end.
+      cbn [fst snd] in *. apply get_clen_map in Hlc as (c0 & Hc0 & ->).
+      rewrite (mapM_get _ _ _ tg Hvss), Hc0. cbn [bind]. destruct (to_list c0) as [v0|] eqn:E0.
+      - cbn [bind]. apply get_ok. rewrite (to_list_len _ _ E0). lia.
+      - exfalso. apply get_In in Hc0. destruct (mapM_Ok_In _ _ _ _ Hvss Hc0) as (? & ? & _). congruence. }
+    exists xs. split; [exact Hx|discriminate].
+  - (* Record *)
+    cbn [chars_ok] in Hok. apply chars_ok_all in Hok.
+    match goal with H : Forall (Valid None) cs |- _ => rename H into HVs end.
+    assert (Hall : exists vss, mapM to_list cs = Ok vss).
+    { apply mapM_total. intros x Hx. rewrite Forall_forall in IHcs, HVs, Hok.
+      destruct (IHcs x Hx None (HVs x Hx) (Hok x Hx)) as (v & ? & _). eauto. }
+    destruct Hall as [vss Hvss]. rewrite to_list_Record, all_lists_mapM, Hvss. cbn [bind].
+    destruct (n <? 0) eqn:E; [lia|].
+    match goal with |- exists _, mapM ?f ?l = _ /\ _ => destruct (mapM_total f l) as [xs Hx] end.
+    { intros i Hi. apply iota_In' in Hi. unfold row.
+      destruct (mapM_total (fun col : list value => get col i) vss) as [fs Hfs].
+      { intros col Hcol. destruct (mapM_In_inv _ _ _ _ Hvss Hcol) as (x & Hx & Hlx).
+        apply get_ok. rewrite (to_list_len _ _ Hlx).
+        match goal with H : Forall (fun x => n <= clen x) cs |- _ => rewrite Forall_forall in H; specialize (H x Hx) end. lia. }
+      rewrite Hfs. cbn [bind]. destruct ks as [k|]; [|eauto].
+      match goal with H : forall k0, Some k = Some k0 -> _ |- _ => specialize (H k eq_refl); rename H into Hk end.
+      apply mapM_length in Hfs. apply mapM_length in Hvss. rewrite Hfs, Hvss, Hk, Nat.eqb_refl. eauto. }
+    exists xs. split; [exact Hx|discriminate].
+  - (* Par *)
+    cbn [chars_ok] in Hok. apply andb_true_iff in Hok as [_ Hok].
+    destruct (IHc arr) as (vs0 & Hc0l & Hb); [assumption..|]. rewrite to_list_Par, Hc0l. cbn [bind].
+    assert (G : forall b, Forall has_bytes vs0 -> exists vs, mapM (fun v => rmap (VStr b) (bytes_of v)) vs0 = Ok vs).
+    { intros b HF. apply mapM_total. intros v Hv. rewrite Forall_forall in HF. destruct (HF v Hv) as [s ->]. cbn. eauto. }
+    destruct arr as [[]|].
+    + destruct (G true (Hb eq_refl)) as [vs Hvs]. exists vs. split; [exact Hvs|discriminate].
+    + destruct (G false (Hb eq_refl)) as [vs Hvs]. exists vs. split; [exact Hvs|discriminate].
+    + exists vs0. split; [reflexivity|discriminate].
+    + exists vs0. split; [reflexivity|discriminate].
+    + exists vs0. split; [reflexivity|discriminate].
+    + exists vs0. split; [reflexivity|discriminate].
+Qed.
+
+(* strongest true variant of T2: validity + sound character buffers *)
+Theorem valid_to_list_total_partial : forall c p, Valid p c -> chars_ok c = true -> exists vs, to_list c = Ok vs.
+Proof. intros c p HV Hok. destruct (to_list_total_all c p HV Hok) as (vs & H & _). eauto. Qed.
+
+Example valid_to_list_total_ex :
+  let c := Record [Par (Some AString) None (ListOffset I64 [0; 2; 3] (Par (Some AChar) None (Numpy DUInt8 [3] [DZ 104; DZ 105; DZ 33])));
+                   IndexedOption I64 [1; -1] (Numpy DFloat64 [2; 2] [DZ 1; DNaN; DZ 3; DInf true])] (Some [[120]; [121]]) 2 in
+  validb None c = true /\ chars_ok c = true /\
+  to_list c = Ok [VRec [([120], VStr true [104; 105]); ([121], VList [VNum (DZ 3); VNum (DInf true)])];
+                  VRec [([120], VStr true [33]); ([121], VNone)]].
+Proof. vm_compute. repeat split. Qed.
+
+(* without strings the side condition is vacuous *)
+Fixpoint no_par (c : content) : bool :=
+  match c with
+  | Numpy _ _ _ | Empty => true
+  | ListOffset _ _ c' | ListA _ _ _ c' | Regular c' _ _ | Indexed _ _ c' | IndexedOption _ _ c'
+  | ByteMasked _ _ c' | BitMasked _ _ _ _ c' | Unmasked c' => no_par c'
+  | Union _ _ _ cs | Record cs _ _ =>
+      (fix all (l : list content) : bool := match l with [] => true | x :: xs => no_par x && all xs end) cs
+  | Par _ _ _ => false
+  end.
+Lemma no_par_chars_ok c : no_par c = true -> chars_ok c = true.
+Proof.
+  induction c using content_ind'; cbn [no_par chars_ok]; auto; try discriminate.
+  - induction H as [|x xs Hx Hxs IH]; [reflexivity|]. intros E. apply andb_true_iff in E as [E1 E2].
+    rewrite (Hx E1). cbn. auto.
+  - induction H as [|x xs Hx Hxs IH]; [reflexivity|]. intros E. apply andb_true_iff in E as [E1 E2].
+    rewrite (Hx E1). cbn. auto.
+Qed.
+Corollary valid_to_list_total_nopar : forall c p, Valid p c -> no_par c = true -> exists vs, to_list c = Ok vs.
+Proof. intros c p HV Hn. eapply valid_to_list_total_partial; [exact HV|apply no_par_chars_ok, Hn]. Qed.
